@@ -1,6 +1,6 @@
 #!/bin/sh
 # freezes the current /verif machinery into /tmp/verif-snap (scratch; not used by any registered command)
-SNAP=/tmp/verif-snap
+SNAP=${SNAP:-/tmp/verif-snap}
 export GOFLAGS=-mod=mod GOPROXY=off GOSUMDB=off GOTOOLCHAIN=local
 mkdir -p $SNAP/bin
 rsync -a --delete --exclude .git --exclude .work --exclude bin --exclude evidence --exclude replays --exclude seeded /verif/ $SNAP/
